@@ -14,6 +14,7 @@
 import GojaModel.Base.Proto
 import GojaModel.C06.Model
 import GojaModel.C06.Spec
+import GojaModel.C06.Builtins
 namespace GojaModel.C06.Driver
 open GojaModel.C06 GojaModel.Proto
 
@@ -197,6 +198,132 @@ def step (s : St) (line : String) : St × String :=
     | _, _, _, _ => bad
   | _ => bad
 
-def main : IO Unit := lineLoop step ({} : St)
+/-- `bi d <builtin> args…`: a String built-in called with register values (mechanism models of Builtins.lean).
+Answers like a value-producing op (tag + markers); `undef` for String.prototype.at out of range. -/
+def stepBuiltin (s : St) (d : Nat) (op : String) (args : List String) : St × String :=
+  let bad := (s, "ERR")
+  let reg := fun (w : String) => (nat? w).bind (fun k => (s.get k).map (fun v => (k, v)))
+  let touchIn := fun (st : St) (kv : Nat × Str) => st.set kv.1 (touch kv.2)
+  match op, args with
+  | "slice", [a, i, j] =>
+    match reg a, Spec.parseInt? i, Spec.parseOptInt? j with
+    | some (ka, x), some i, some j =>
+      let r := Builtins.sliceM x i j
+      ((touchIn s (ka, x)).set d r, answer r (Spec.jsSlice (units x) i j))
+    | _, _, _ => bad
+  | "substring", [a, i, j] =>
+    match reg a, Spec.parseInt? i, Spec.parseOptInt? j with
+    | some (ka, x), some i, some j =>
+      let r := Builtins.substringM x i j
+      ((touchIn s (ka, x)).set d r, answer r (Spec.jsSubstring (units x) i j))
+    | _, _, _ => bad
+  | "substr", [a, i, j] =>
+    match reg a, Spec.parseInt? i, Spec.parseOptInt? j with
+    | some (ka, x), some i, some j =>
+      let r := Builtins.substrM x i j
+      ((touchIn s (ka, x)).set d r, answer r (Spec.jsSubstr (units x) i j))
+    | _, _, _ => bad
+  | "at", [a, i] =>
+    match reg a, Spec.parseInt? i with
+    | some (ka, x), some i =>
+      match Builtins.atM x i with
+      | some r => ((touchIn s (ka, x)).set d r, answer r (Spec.jsAt (units x) i))
+      | none => ((touchIn s (ka, x)).set d Builtins.emptyStr, "undef" ++ (if Spec.jsAt (units x) i == [] then "" else " !SPEC"))
+    | _, _ => bad
+  | "charAt", [a, i] =>
+    match reg a, Spec.parseInt? i with
+    | some (ka, x), some i =>
+      let r := Builtins.charAtM x i
+      ((touchIn s (ka, x)).set d r, answer r (Spec.jsCharAt (units x) i))
+    | _, _ => bad
+  | "repeat", [a, n] =>
+    match reg a, nat? n with
+    | some (ka, x), some n =>
+      let r := Builtins.repeatM x n
+      ((if n == 0 then s else touchIn s (ka, x)).set d r, answer r (Spec.rep (units x) n))
+    | _, _ => bad
+  | "fcc", [h] =>
+    match Spec.parseUnits (hx h) with
+    | some u => let r := Builtins.fromCharCodeM u; (s.set d r, answer r u)
+    | none => bad
+  | "fcp", [h] =>
+    match Spec.parseUnits (hx h) with
+    | some u =>
+      -- code points given as UTF-16 (pairs merged, lone surrogates kept): the harness passes Spec.codePoints
+      let cps := Spec.codePoints u
+      let r := Builtins.fromCodePointM cps
+      (s.set d r, answer r u)
+    | none => bad
+  | _, _ =>
+    if op == "padStart" || op == "padEnd" then
+      match args with
+      | [a, f, n] =>
+        match reg a, reg f, nat? n with
+        | some (ka, x), some (kf, y), some n =>
+          let atStart := op == "padStart"
+          let r := Builtins.padM x y n atStart
+          let s1 := touchIn s (ka, x)
+          let s2 := if n ≤ Builtins.len x then s1 else (if ka == kf then s1 else touchIn s1 (kf, y))
+          (s2.set d r, answer r (if atStart then Spec.padStart (units x) n (units y) else Spec.padEnd (units x) n (units y)))
+        | _, _, _ => bad
+      | _ => bad
+    else if op == "replace" || op == "replaceAll" then
+      match args with
+      | [a, p, rp] =>
+        match reg a, reg p, reg rp with
+        | some (ka, x), some (kp, y), some (kr, z) =>
+          let all := op == "replaceAll"
+          let r := if all then Builtins.replaceAllM x y z else Builtins.replaceM x y z
+          let found := (Builtins.indexM x y 0).isSome
+          let st1 := [(ka, x), (kp, y)].foldl touchIn s
+          let st2 := if found then touchIn st1 (kr, (st1.get kr).getD z) else st1
+          (st2.set d r, answer r (if all then Spec.replaceAll (units x) (units y) (units z)
+                                   else Spec.replaceFirst (units x) (units y) (units z)))
+        | _, _, _ => bad
+      | _ => bad
+    else if op == "splitjoin" then
+      match args with
+      | [a, p, j] =>
+        match reg a, reg p, reg j with
+        | some (ka, x), some (kp, y), some (kj, z) =>
+          let ps := Builtins.splitM x y
+          let r := Builtins.joinM ps z
+          let st1 := [(ka, x), (kp, y)].foldl touchIn s
+          let st2 := if ps.length ≥ 2 then touchIn st1 (kj, (st1.get kj).getD z) else st1
+          (st2.set d r, answer r (Spec.join (Spec.split (units x) (units y)) (units z)))
+        | _, _, _ => bad
+      | _ => bad
+    else if op == "splitpiece" then
+      match args with
+      | [a, p, k] =>
+        match reg a, reg p, nat? k with
+        | some (ka, x), some (kp, y), some k =>
+          let ps := Builtins.splitM x y
+          let st1 := [(ka, x), (kp, y)].foldl touchIn s
+          match ps[k]?, (Spec.split (units x) (units y))[k]? with
+          | some r, some u => (st1.set d r, answer r u)
+          | some r, none => (st1.set d r, tag r ++ " !SPEC")
+          | none, sp => (st1.set d Builtins.emptyStr, "undef" ++ (if sp.isNone then "" else " !SPEC"))
+        | _, _, _ => bad
+      | _ => bad
+    else if op == "concat" then
+      match getAll s args with
+      | some kvs =>
+        if kvs.isEmpty then bad else
+        let r := Builtins.protoConcatM (kvs.map (·.2))
+        let s' := kvs.foldl touchIn s
+        (s'.set d r, answer r (kvs.flatMap (fun kv => units kv.2)))
+      | none => bad
+    else bad
+
+def stepAll (s : St) (line : String) : St × String :=
+  match words line with
+  | "bi" :: d :: op :: args =>
+    match nat? d with
+    | some d => stepBuiltin s d op args
+    | none => (s, "ERR")
+  | _ => step s line
+
+def main : IO Unit := lineLoop stepAll ({} : St)
 
 end GojaModel.C06.Driver
